@@ -538,7 +538,7 @@ func c15rGen(rng *rand.Rand, tier string) []core.Spec {
 		for _, p := range ps {
 			ext += core.Pick(rng, []string{"; ", ";", " ; "}) + p
 		}
-		for _, arrangement := range []int{0, 1, 2, 3, 4} {
+		for _, arrangement := range []int{0, 1, 2, 3, 4, 5} {
 			var lines []B
 			switch arrangement {
 			case 0:
@@ -549,8 +549,10 @@ func c15rGen(rng *rand.Rand, tier string) []core.Spec {
 				lines = []B{B("bar; x=1"), B(ext)}
 			case 3:
 				lines = []B{B(ext + ", baz")}
-			default:
+			case 4:
 				lines = []B{B(ext), B("permessage-deflate; server_no_context_takeover; client_no_context_takeover")}
+			default: // a first line that goes wrong after some parameters were read must not leak them into the next line
+				lines = []B{B("x-other; server_no_context_takeover; client_no_context_takeover; level=9 junk"), B(ext)}
 			}
 			for _, enabled := range []bool{true, false} {
 				rs := ReplySpec{Status: 101, Reason: "Switching Protocols"}
